@@ -15,6 +15,7 @@
 (*     s.lit  a           s.ref  @[X]@        s.pre  p@[X]@                *)
 (*     s.two  @[X]@-@[Y]@                                                  *)
 (*     l.lit  a 'a x'     l.litref  e @[X]@   l.instr  "<@[X]@>"           *)
+(*     l.quoted  "@[X]@" x                                                 *)
 (*     l.two  @[X]@ @[Y]@                                                  *)
 (*     p.lit  -rel-tmp a  p.comp  -rel-tmp @[X]@   p.rel  -rel X a         *)
 (*     p.pre  @[X]@/a     p.relcomp  -rel X @[Y]@                          *)
@@ -108,7 +109,7 @@ PosOf(u) == CASE u = "a" -> 1 [] u = "b" -> 2 [] u = "c" -> 3 [] u = "d" -> 4 []
 \* i integer-matcher, c files-condition, f file-matcher, k files-matcher, o files-source, x text-source
 AllShapes0 == {"s.lit", "l.lit", "l.empty", "p.lit", "m.lit", "t.lit", "g.lit", "n.lit", "i.lit",
                "c.lit", "f.lit", "k.lit", "o.lit", "x.lit"}
-AllShapes1 == {"s.ref", "s.pre", "l.ref", "l.litref", "l.instr", "p.comp", "p.rel", "p.pre", "m.ref", "m.neg", "m.eq",
+AllShapes1 == {"s.ref", "s.pre", "l.ref", "l.litref", "l.instr", "l.quoted", "p.comp", "p.rel", "p.pre", "m.ref", "m.neg", "m.eq",
                "t.ref", "t.filt", "t.lm", "g.ref", "g.arg", "n.ref", "n.tm", "n.im", "i.ref", "i.int",
                "c.name", "c.ref", "f.ref", "f.tm", "k.ref", "k.sel", "o.name", "o.ref", "x.ref", "x.str"}
 AllShapes2 == {"s.two", "l.two", "p.relcomp", "m.or", "t.seq"}
@@ -117,7 +118,7 @@ AllCtxs    == {"data", "comp", "relsym", "pre", "int", "range", "env", "pname", 
 ActCtxs    == {"data", "pname", "pgm"}      \* what the line of [act] (actor "command line") can be made of here
 
 TypeOf(sh) == CASE sh \in {"s.lit", "s.ref", "s.pre", "s.two", "s.builtin"} -> "string"
-                [] sh \in {"l.lit", "l.empty", "l.ref", "l.litref", "l.instr", "l.two"} -> "list"
+                [] sh \in {"l.lit", "l.empty", "l.ref", "l.litref", "l.instr", "l.quoted", "l.two"} -> "list"
                 [] sh \in {"p.lit", "p.comp", "p.rel", "p.pre", "p.relcomp", "p.builtin"} -> "path"
                 [] sh \in {"m.lit", "m.ref", "m.neg", "m.eq", "m.or"} -> "text-matcher"
                 [] sh \in {"t.lit", "t.ref", "t.filt", "t.lm", "t.seq"} -> "text-transformer"
@@ -132,7 +133,7 @@ TypeOf(sh) == CASE sh \in {"s.lit", "s.ref", "s.pre", "s.two", "s.builtin"} -> "
                 [] OTHER -> "-"
 
 \* the restriction on each reference slot of a shape / of a context
-Restr(sh) == CASE sh \in {"s.ref", "s.pre", "l.ref", "l.litref", "l.instr", "m.eq", "g.arg", "x.str", "data"} -> <<"data">>
+Restr(sh) == CASE sh \in {"s.ref", "s.pre", "l.ref", "l.litref", "l.instr", "l.quoted", "m.eq", "g.arg", "x.str", "data"} -> <<"data">>
                [] sh \in {"s.two", "l.two"} -> <<"data", "data">>
                [] sh \in {"p.comp", "i.int", "c.name", "o.name", "comp", "int", "range", "env", "pname", "fname"}
                     -> <<"strict">>
@@ -449,6 +450,7 @@ Val(n) ==
     [] sh = "l.ref" -> Lst(r1)
     [] sh = "l.litref" -> <<<<"e">>>> \o Lst(r1)
     [] sh = "l.instr" -> <<<<"<">> \o Str(r1) \o <<">">>>>
+    [] sh = "l.quoted" -> <<Str(r1), <<"x">>>>          \* a quoted reference alone is ONE element (never spliced)
     [] sh = "l.two" -> Lst(r1) \o Lst(r2)
     [] sh = "p.lit" -> [root |-> LitRoot(d.name), comps |-> <<l>>]
     [] sh = "p.comp" -> [root |-> "tmp", comps |-> <<Str(r1)>>]
